@@ -156,3 +156,57 @@ def run(ctx):
             if st.k == "assign" and st.rv.place is not None and any(isinstance(e, dict) and e.get("f") in ("successors_vec", "predecessors_vec") for e in st.rv.place.proj):
                 bad.append(loc_str(st.span))
     ctx.require(not bad, "R-C18-2", "matrix-source", "neighbours and weights come from the de-duplicated neighbour API and the edge store (%s)" % sorted(srcs & {"get_successors_or_neighbors", "get_edge", "get_edges", "get_all_edges", "get_neighbor_nodes", "get_successor_nodes", "get_sparse_adjacency_matrix"}), "eigenvector_centrality walks the raw adjacency list at %s: that list repeats a neighbour for an undirected self-loop and holds one policy weight per pair, so the matrix entry becomes 2w (or the minimum of parallel weights) instead of the stored edge's weight" % bad[:2], loc_str(b.span))
+
+    # ------------------------------------------------------------------ R-C18-3
+    ctx.rule("R-C18-3", "the matrix entry of an edge is its stored weight; it is replaced by 1 only when the call is unweighted or the weight is NaN")
+    n_w = 0
+    for cb in [b] + prog.closures_of(b.path):
+        cfl = flows.of(cb)
+        muls = [(st, st.rv.ops) for st in cb.stmts() if st.k == "assign" and st.rv.k == "binop" and st.rv.j["op"] == "Mul" and st.rv.ty == "f64"]
+        muls += [(t, t.args) for t in cb.calls() if t.callee and t.callee.short.endswith("ops::Mul::mul") and "f64" in t.dest.ty]
+        for (st, ops_) in muls:
+            # the factor that is not the previous iterate
+            cand = []
+            for o in ops_:
+                if o.place is None or o.place.proj:
+                    continue
+                wl_ = o.place.local
+                for _ in range(5):
+                    d1 = cb.assigns_to(wl_)
+                    if len(d1) == 1 and getattr(d1[0][1], "rv", None) is not None and d1[0][1].rv.k == "use" and d1[0][1].rv.ops[0].place is not None and not d1[0][1].rv.ops[0].place.proj:
+                        wl_ = d1[0][1].rv.ops[0].place.local
+                    else:
+                        break
+                defs = cb.assigns_to(wl_)
+                rd = [d for (dbb, d) in defs if getattr(d, "rv", None) is not None and d.rv.k == "use" and d.rv.ops[0].place is not None and d.rv.ops[0].place.fields()[-1:] == ["weight"]]
+                if rd:
+                    cand.append((wl_, defs))
+            for (wl, defs) in cand:
+                n_w += 1
+                import pathsens
+
+                kinds = []
+                for (dbb, d) in defs:
+                    rv = getattr(d, "rv", None)
+                    dsc = panic.norm(cfl.describe_def(d, depth=6)) if rv is not None else ("call",)
+                    kinds.append("const" if (isinstance(dsc, tuple) and dsc[0] == "const") else ("weight" if (rv is not None and rv.k == "use" and rv.ops[0].place is not None and rv.ops[0].place.fields()[-1:] == ["weight"]) else "other"))
+                # path-sensitive: in every abstract state that reaches a constant definition, `weighted` is false
+                # or `is_nan(weight)` is true (whatever the boolean expression that selects it looks like)
+                ex = pathsens.Explorer(cb, cfl, prog, keep=lambda k: isinstance(k, str) and (k.endswith("weighted") or k.startswith("is_nan(")))
+                ex.run()
+                bad = []
+                for k_, (dbb, d) in zip(kinds, defs):
+                    if k_ == "other":
+                        bad.append("the factor is also computed as %s" % fmt_desc(panic.norm(cfl.describe_def(d, depth=6)))[:80])
+                    if k_ == "const":
+                        states = ex.at_block.get(dbb, set())
+                        if ex.truncated or not states:
+                            bad.append("the condition under which the weight is replaced by a constant could not be evaluated")
+                        for (facts, marks) in states:
+                            fd = dict(facts)
+                            unw = any(k.endswith("weighted") and v is False for k, v in fd.items() if isinstance(k, str))
+                            nan = any(k.startswith("is_nan(") and "weight" in k and v is True for k, v in fd.items() if isinstance(k, str))
+                            if not (unw or nan):
+                                bad.append("the weight is replaced by a constant on a path where the call is weighted and the weight is not known to be NaN (known: %s)" % sorted((str(k), v) for k, v in fd.items()))
+                ctx.require(not bad, "R-C18-3", "weight-factor|%s" % cb.short.split("::{closure")[0], "the edge factor is edge.weight, or 1 under `!weighted` / `weight.is_nan()` only", "%s: a stored weight that is not NaN (for example 0.0) is not the matrix entry the iteration uses" % "; ".join(sorted(set(bad))[:3]), loc_str(st.span))
+    ctx.floor("R-C18-3", "weight_factors", n_w, 1)
